@@ -12,7 +12,7 @@ import (
 // Engine T — retain/release typestate of pooled packets (DESIGN.md §3 T).
 
 func init() {
-	registerEngine("T", []string{"T1", "T2", "T6"}, runEngineT)
+	registerEngine("T", []string{"T1", "T2", "T6", "T7"}, runEngineT)
 }
 
 // refcounted describes a reference-counted type: how references are obtained, retained and released.
@@ -129,6 +129,7 @@ func runEngineT(p *Prog, o *obls) {
 			})
 			t1Slots(p, o, fn, spec, &found)
 			t6Vacated(p, o, fn, spec)
+			t7Window(p, o, fn, spec)
 			t2Tag(p, o, fn, spec)
 			if fullFuncName(fn) == spec.get {
 				found++
